@@ -338,6 +338,29 @@ pub fn c06(cx: &mut Ctx) {
             }
         }
     }
+    // the remaining length the body state reports follows what was delivered, not what was offered
+    for (status, n) in [(200u16, 10usize), (302, 6), (404, 3)] {
+        for cap in [0usize, 1, 4, 100] {
+            cx.case("readmode");
+            if !to_recv_response_any(cx, "GET") { continue; }
+            let head = format!("HTTP/1.1 {} X\r\nLocation: /n\r\nContent-Length: {}\r\n\r\n", status, n).into_bytes();
+            cx.op(&format!("resp {}", hx(&head)));
+            cx.op("proceed");
+            if cx.rec.state() != "recvBody" { continue; }
+            cx.op("mode");
+            let body: Vec<u8> = (0..n + 5).map(|i| b'a' + (i % 26) as u8).collect();
+            let mut off = 0usize;
+            for _ in 0..4 {
+                let res = cx.op(&format!("bread {} {}", hx(&body[off..]), cap));
+                let p: Vec<&str> = res.split(' ').collect();
+                if p[0] != "bytes" { break; }
+                off += p[1].parse::<usize>().unwrap_or(0);
+                cx.op("mode");
+                cx.op("canproceed");
+            }
+            cx.op("proceed");
+        }
+    }
     // two heads on the same flow: an informational response other than 100 is handed to the caller (it has
     // no body); the final response that follows must get its own framing decision
     for interim in ["HTTP/1.1 103 Early Hints\r\nLink: </x>\r\n\r\n", "HTTP/1.1 102 Processing\r\n\r\n", "HTTP/1.1 100 Continue\r\n\r\n"] {
